@@ -272,7 +272,16 @@ func init() {
 	e1Check("C04", "E1 safety-mode exploration; oracle at each Broadcast / view increase, evaluated on the exported Context at that instant: response only for the designated primary's verified complete proposal naming its hash; (pre)commit only with proposal, all transactions and >=M preparations naming it; view v entered only with change views >=v from >=M validators (monitor's own record)",
 		func(tier string) []*Job { return append(safetyFamily(tier, []int64{-1, 0}), e2Family(tier, []int64{-1, 0})...) }, needKinds("PResp", "Commit", "CV"))
 	e1Check("C07", "E1 safety-mode exploration with anti-MEV on / switching on / off; oracle on per-node callback order: commit only after own pre-commit, successful ProcessPreBlock (<=1 per height) and M current-view pre-commits; block built/signed only after that; below the enabling height no pre-commit, pre-block or ProcessPreBlock",
-		func(tier string) []*Job { return append(safetyFamily(tier, []int64{0, 5, -1}), e2Family(tier, []int64{0, 6})...) }, needKinds("PreCommit", "Commit"))
+		func(tier string) []*Job {
+			j := append(safetyFamily(tier, []int64{0, 5, -1}), e2Family(tier, []int64{0, 6})...)
+			// watch-only observers follow the same phase discipline (they process pre-blocks and blocks)
+			sp := E2Spec{Views: 2, Proposals: "A", Responses: "A", Commits: "AG", PreCommits: "AG", CVs: 1, Bundles: true, MaxDepth: 10, StateCap: 300_000, Peers: []int{0, 1, 3}}
+			j = append(j, job(e2WatchScen("E2-watchflag-x2-start5-amev-on", 4, 2, false, 0, false, 5, sp), 100))
+			j = append(j, job(e2WatchScen("E2-outside-amev-on", 4, 0, true, 0, false, 4, sp), 100))
+			wf := scen("C07-watchflag0-N4-amev-on", 4, withAMEV(0), withKind(0, kWatchFlag), withK(2))
+			j = append(j, job(wf, 100))
+			return j
+		}, needKinds("PreCommit", "Commit"))
 	e1Check("C10", "E1 safety-mode exploration; oracle after every API call on an undecided validator: injected timer armed for exactly (BlockIndex, ViewNumber), non-negative duration, not consumed-and-not-rearmed",
 		func(tier string) []*Job {
 			return append(append(safetyFamily(tier, []int64{-1, 0}), e2Family(tier, []int64{-1, 0})...), c10TimedJobs(tier)...)
